@@ -1,7 +1,8 @@
 (** Properties/C19.v — "Glyph widths and Unicode maps follow the font dictionaries exactly".
     Only statements, each closed by [exact] of a lemma proved in Font/*Proofs.v. *)
 From Coq Require Import Sorted.
-From PdfV Require Import Base.Prelude Gen.Generated Font.Model Font.Spec Font.WidthProofs Font.UtfProofs Font.CmapProofs.
+From PdfV Require Lex.Lexer Lex.StrLexer Lex.LexProofs Lex.StrProofs.
+From PdfV Require Import Base.Prelude Gen.Generated Font.Model Font.Spec Font.WidthProofs Font.UtfProofs Font.CmapProofs Font.WriterProofs Font.LexEq Font.SpellProofs.
 
 (** the width table: after [_set w c x] (which never panics, in any of its five growth cases)
     code c has width x and every other code keeps its width *)
@@ -47,6 +48,22 @@ Theorem C19_simple_widths : forall first ws missing c, (0 <= first)%Z ->
 Proof. exact simple_widths_correct. Qed.
 Print Assumptions C19_simple_widths.
 
+(** simple fonts with ill-formed dictionaries — negative /FirstChar (cast to usize), /Widths absent, shorter or longer
+    than /LastChar - /FirstChar + 1, /FirstChar > /LastChar (never read): no arithmetic can overflow, no index can be out
+    of bounds, and every code has the width of the /Widths array placed at `FirstChar as usize`, /MissingWidth elsewhere *)
+Theorem C19_simple_widths_any : forall first ws missing c,
+  exists w, simple_widths (Some first) ws missing = Some w /\
+    get w c = simple_spec (i32_as_usize first) (match ws with Some l => l | None => [] end)
+                          (match missing with Some d => d | None => 0 end) c.
+Proof. exact simple_widths_any. Qed.
+Print Assumptions C19_simple_widths_any.
+
+(** negative /FirstChar: every code below 2^64 - 2^31 gets /MissingWidth *)
+Theorem C19_simple_widths_negative : forall first ws missing c, (-2147483648 <= first < 0)%Z -> c < 18446744071562067968 ->
+  exists w, simple_widths (Some first) ws missing = Some w /\ get w c = match missing with Some d => d | None => 0 end.
+Proof. exact simple_widths_negative. Qed.
+Print Assumptions C19_simple_widths_negative.
+
 (** UTF-16BE: decoding the encoding of any string of scalar values (supplementary planes included) returns it *)
 Theorem C19_utf16_rt : forall u, forallb is_scalar u = true -> utf16be_to_string (utf16be_bytes u) = Ok u.
 Proof. exact utf16_rt. Qed.
@@ -59,12 +76,53 @@ Theorem C19_cmap_read : forall t, wf_cmap t -> parse_cmap (render_cmap t) = Ok (
 Proof. exact cmap_read. Qed.
 Print Assumptions C19_cmap_read.
 
-(** the full statement about the writer; NOT proved universally (see DESIGN §12.C19): validated on every
-    generated map by the correspondence mode cmap_rt against the specification, and here on a concrete map *)
-Definition C19_cmap_rt_full_statement : Prop :=
-  forall m : cmap, (forall e, In e m -> fst e < 65536 /\ wf_ustr (snd e)) ->
+(** the CMap reader on every spelling the standard allows ([sp_text], Font/SpellProofs.v): any white-space and comments
+    between tokens (or none where a delimiter separates them), hex strings in either digit case with white-space inside
+    and odd digit counts, one- and two-byte source codes, bfrange in the array form and in the string form
+    `<lo> <hi> <dst>` (last byte of dst incremented per code), any prologue / codespace / trailer tokens around the
+    sections, `endcmap`, data ending inside a comment *)
+Theorem C19_cmap_read_spelled : forall t s, sp_text t s -> parse_cmap s = Ok (cmap_denote t).
+Proof. exact cmap_read_spelled. Qed.
+Print Assumptions C19_cmap_read_spelled.
+
+(** the reader's lexer pieces are the shared lexer models (Lex/Lexer.v, Lex/StrLexer.v) on every input, so the
+    token-level theorems of Lex/LexProofs.v and Lex/StrProofs.v are facts about parse_cmap's lexer *)
+Theorem C19_lexer_shared : forall s p,
+  Font.Model.next_word s = proj_word (PdfV.Lex.Lexer.next_word (PdfV.Lex.Lexer.mkLx p s)).
+Proof. exact next_word_shared. Qed.
+Print Assumptions C19_lexer_shared.
+
+Theorem C19_hexstr_shared : forall l,
+  match PdfV.Lex.StrLexer.hexstring_lex l with
+  | Ok (b, n) => hexstr None l = Ok (b, skipn (N.to_nat n) l)
+  | Err _ => exists e, hexstr None l = Err e
+  | Panic _ => False
+  | OutOfFuel => False
+  end.
+Proof. exact hexstr_shared. Qed.
+Print Assumptions C19_hexstr_shared.
+
+(** writer -> reader, for EVERY map (a ToUnicodeMap is its content sorted by code; codes are u16, texts are strings
+    of Unicode scalar values): write_cmap never panics — the u16 addition of its block splitter cannot overflow, no
+    block is empty — its text is a CMap text in the spelling of [render_cmap] whose sections are the blocks of
+    consecutive codes, and parse_cmap reads that text back as exactly the map *)
+Theorem C19_cmap_rt : forall m : cmap, (forall e, In e m -> fst e < 65536 /\ wf_ustr (snd e)) ->
     StronglySorted (fun a b => fst a < fst b) m ->
     exists t, write_cmap m = Ok t /\ parse_cmap t = Ok m.
+Proof. exact cmap_rt_full. Qed.
+Print Assumptions C19_cmap_rt.
+
+(** the writer's text is a well-formed CMap text that denotes the map (independent of the reader) *)
+Theorem C19_cmap_write : forall m : cmap, Forall wf_entry m -> StronglySorted key_lt m ->
+  exists t, write_cmap m = Ok (render_cmap t) /\ wf_cmap t /\ cmap_denote t = m.
+Proof. exact write_cmap_text. Qed.
+Print Assumptions C19_cmap_write.
+
+(** every map built by ToUnicodeMap::create is in that domain *)
+Theorem C19_cmap_rt_created : forall l, Forall wf_entry l ->
+  exists t, write_cmap (map_create l) = Ok t /\ parse_cmap t = Ok (map_create l).
+Proof. exact cmap_rt_created. Qed.
+Print Assumptions C19_cmap_rt_created.
 
 Example C19_cmap_rt_example :
   let m := [(0, [65]); (1, [66; 128512]); (2, []); (7, [1114111]); (9, [97]); (10, [98]); (300, [55295]);
@@ -107,3 +165,8 @@ Example C19_hostile_examples :
   cid_widths 0 [IInt 0 0; IArr []] = Ok (new 0) /\
   cid_widths 0 [IInt 2147483647 0; IArr [NInt 1 1]] = Err 1.
 Proof. repeat split; vm_compute; reflexivity. Qed.
+
+(** non-vacuity of [sp_text]: comment, form feed, adjacent strings, lower-case digits, white-space inside a string,
+    one-byte codes, string form of bfrange *)
+Example C19_spelled_example : sp_text ex_text ex_bytes /\ parse_cmap ex_bytes = Ok [(26, [97]); (27, [98])].
+Proof. split; [exact ex_spelled|exact ex_read]. Qed.
